@@ -19,7 +19,7 @@ if [ -z "$SKIPTESTS" ]; then
 fi
 echo "demo without change: exit $R0; demo with change: exit $R1 ($(tail -1 $S/demo1.txt | cut -c1-160)); test suite with change: $T"
 rm -rf $S/repo/out
-rsync -a --exclude .git --exclude evidence /verif/ $S/verif/ || [ $? -eq 24 ]   # 24: files vanished during a concurrent build
+rsync -a --exclude .git --exclude evidence ${VERIF_SRC:-/verif}/ $S/verif/ || [ $? -eq 24 ]   # 24: files vanished during a concurrent build
 for p in "$@"; do
   (cd $S/verif && BU_REPO=$S/repo ./check $p ${TIER:-quick} > $S/out.txt 2>&1) || true
   echo "  check $p: $(grep -m1 VIOLATION $S/out.txt || echo 'no violation reported') | $(tail -1 $S/out.txt | cut -c1-120)"
